@@ -148,7 +148,7 @@ Lemma tr_ty_gen g a : tr (GGen g a) =
   match gen_kind g with
   | KSeq k => match a with [x] => option_map (TSeq k) (tr x) | _ => None end
   | KMap => match a with
-            | [k; v] => match tr k, tr v with Some tk, Some tv => Some (TMap KDict tk tv) | _, _ => None end
+            | [k; v] => match tr k, tr v with Some tk, Some tv => Some (TMap (mkind N g) tk tv) | _, _ => None end
             | _ => None
             end
   | KTup => match a with
@@ -291,7 +291,7 @@ Proof. unfold union_stack_u, none_first. destruct (isoptional ts); [|exact (fun 
 Lemma members_found_tr cx u U :
   not_wrapper u -> tr u = Some U ->
   (forall c, u = GClass c -> exists d, E c = Some d /\ class_rel d (E' c) /\
-                                       (In GAny (map snd (Graph.cfields d)) -> noop_leaf any_id = true)) ->
+                                       (In GAny (map snd (Graph.cfields d)) -> noop_leaf (any_id N) = true)) ->
   (forall var c, In (var, c) (level E u) -> skip var c = false -> exists t, tr c = Some t /\ avail cx t) ->
   members_found E' dir noop_leaf cx U = true.
 Proof.
@@ -436,7 +436,7 @@ Hypothesis Hg : type_graph fuel E root = Graph.Ok g.
 Hypothesis Ht : is_topo_order g order.
 (* every expanded class has a core class with the same field types; Any fields pass through *)
 Hypothesis Hcls : forall p preds c, In (p, preds) g -> Graph.nunw p = GClass c ->
-  exists d, E c = Some d /\ class_rel N d (E' c) /\ (In GAny (map snd (Graph.cfields d)) -> noop_leaf any_id = true).
+  exists d, E c = Some d /\ class_rel N d (E' c) /\ (In GAny (map snd (Graph.cfields d)) -> noop_leaf (any_id N) = true).
 (* every deferred node is acceptable *)
 Hypothesis Hcyc : forall p preds n, In (p, preds) g -> In n preds -> Graph.ncyc n = true -> cyc_ok N n = true.
 Notation tr := (tr_ty N).
@@ -552,7 +552,7 @@ Definition class_guard (N : naming) (E : Graph.env) (noop_leaf : nat -> bool) (u
   | GClass c =>
       match E c with
       | Some d => match tr_class N c d with Some _ => true | None => false end
-                  && (negb (existsb is_any (map snd (Graph.cfields d))) || noop_leaf any_id)
+                  && (negb (existsb is_any (map snd (Graph.cfields d))) || noop_leaf (any_id N))
       | None => false
       end
   | _ => true
@@ -574,7 +574,7 @@ Proof. induction l as [|fd l IH]; intros fs H; cbn [mapO map] in *.
 Lemma class_guard_rel N E noop_leaf c :
   class_guard N E noop_leaf (GClass c) = true ->
   exists d, E c = Some d /\ class_rel N d (tr_env N E c) /\
-            (In GAny (map snd (Graph.cfields d)) -> noop_leaf any_id = true).
+            (In GAny (map snd (Graph.cfields d)) -> noop_leaf (any_id N) = true).
 Proof. cbn [class_guard]. unfold tr_env. destruct (E c) as [d|]; [|discriminate].
   intros H. apply andb_true_iff in H. destruct H as [H1 H2]. exists d. split; [reflexivity|].
   destruct (tr_class N c d) as [cd|] eqn:Hcd; [|discriminate H1]. split.
